@@ -460,7 +460,7 @@ spif_socket_accept(spif_socket_t self)
 spif_bool_t
 spif_socket_send(spif_socket_t self, spif_str_t data)
 {
-    size_t len;
+    size_t len, sent;
     int num_written;
     struct timeval tv = { 0, 0 };
 
@@ -470,7 +470,9 @@ spif_socket_send(spif_socket_t self, spif_str_t data)
     len = spif_str_get_len(data);
     REQUIRE_RVAL(len > 0, FALSE);
 
-    num_written = write(self->fd, SPIF_STR_STR(data), len);
+    /* A write may be cut short; keep going until everything is out. */
+    for (sent = 0; sent < len; sent += num_written) {
+    num_written = write(self->fd, SPIF_STR_STR(data) + sent, len - sent);
     for (; (num_written < 0) && ((errno == EAGAIN) || (errno == EINTR)); ) {
         tv.tv_usec += 10000;
         if (tv.tv_usec == 1000000) {
@@ -478,7 +480,7 @@ spif_socket_send(spif_socket_t self, spif_str_t data)
             tv.tv_sec++;
         }
         select(0, NULL, NULL, NULL, &tv);
-        num_written = write(self->fd, SPIF_STR_STR(data), len);
+        num_written = write(self->fd, SPIF_STR_STR(data) + sent, len - sent);
     }
     if (num_written < 0) {
         D_OBJ(("Unable to write to socket %d -- %s\n", self->fd, strerror(errno)));
@@ -512,6 +514,9 @@ spif_socket_send(spif_socket_t self, spif_str_t data)
                 return FALSE;
                 break;
         }
+        /* The EFBIG path has sent everything in pieces. */
+        break;
+    }
     }
     return TRUE;
 }
